@@ -13,7 +13,11 @@ Inductive sop :=
 | SResample.
 
 Definition part := (cm * Z * value * Z)%type.   (* choices, log weight (ln 2 units), retval, score *)
-Record snap := { sn_parts : list part; sn_est : Q; sn_lml : Q }.
+(** [sn_fvals]: a test function's value on each particle's choices (computed by the harness from the
+    choices, not by the library); [sn_fest]: ParticleCollection.estimate of that function;
+    [sn_fest2]: second component of estimate of the vector-valued function (f, f^2) *)
+Record snap := { sn_parts : list part; sn_est : Q; sn_lml : Q;
+                 sn_fvals : list Z; sn_fest : Q; sn_fest2 : Q }.
 
 
 Definition pow2 (k : Z) : Q := Qpower (2 # 1) k.
@@ -25,6 +29,16 @@ Definition lml_ok (s : snap) : bool :=
   let ws := map (fun p : part => pow2 (snd (fst (fst p)))) (sn_parts s) in
   let n := Z.of_nat (length ws) in
   qrel_close (sn_lml s) (sn_est s * (fold_right Qplus 0%Q ws / inject_Z n))%Q.
+
+(** estimate(f) = sum_i w_i f(x_i) / sum_i w_i  (self-normalised), scalar- and vector-valued f *)
+Definition fest_ok (s : snap) : bool :=
+  let ws := map (fun p : part => pow2 (snd (fst (fst p)))) (sn_parts s) in
+  let tot := fold_right Qplus 0%Q ws in
+  let wf := fold_right Qplus 0%Q (map (fun x : Q * Z => (fst x * inject_Z (snd x))%Q) (combine ws (sn_fvals s))) in
+  let wf2 := fold_right Qplus 0%Q (map (fun x : Q * Z => (fst x * inject_Z (snd x * snd x))%Q) (combine ws (sn_fvals s))) in
+  Nat.eqb (length (sn_fvals s)) (length ws) &&
+  Qle_bool (Qabs (sn_fest s * tot - wf)) ((1 # 2000) * (Qabs wf + tot))%Q &&
+  Qle_bool (Qabs (sn_fest2 s * tot - wf2)) ((1 # 2000) * (Qabs wf2 + tot))%Q.
 
 (** increment of the log weight produced by one generate-based move *)
 Definition incr_ok (target : gf) (args : value) (obsc : cm) (prop : option gf) (p : part) (dlw : Z) : bool :=
@@ -61,7 +75,7 @@ Fixpoint stages (cur : option (gf * cm)) (argsl : list value) (prev : option sna
   match ops, snaps with
   | [], [] => true
   | o :: ops', s :: snaps' =>
-      lml_ok s &&
+      lml_ok s && fest_ok s &&
       match o with
       | SInit tg args obsc prop =>
           let g := compile tg in
@@ -132,7 +146,7 @@ Definition coherent_with (g : gf) (obsc : cm) (al : list value) (p : part) : boo
 Definition auto_step (g : gf) (obsc : cm) (prop : option gf) (kernel : bool) (nfloor : Z)
            (al_own : list value) (al_any : list value) (prev_lw : list Z) (prev_est : Q) (first : bool) (s : snap) : bool :=
   let ps := sn_parts s in
-  lml_ok s &&
+  lml_ok s && fest_ok s &&
   let resampled := forallb (fun p => Z.eqb (lw p) 0) ps && forallb (coherent_with g obsc al_any) ps
                    && qrel_close (sn_lml s) (sn_est s) in
   let plain :=
